@@ -180,6 +180,13 @@ def predicate(op, il, mres, tag):
             return ("Relic.Props.C15.pinned_key_never_stale", "key 1 or an error",
                     "a request pinned to key id 1, overlapping a rotation and %s unpinned lookups, was served: %s" % (f[3], il))
         return None
+    if kind == "walias":
+        kv = _kv(il)
+        if il.startswith("ok pub=") and kv.get("pub") != kv.get("sig"):
+            return ("Relic.Props.C07.emitted_leaf_matches_key", "the key that signs is the key whose public key the handle carries",
+                    "worker RPC with key name %s: the handle carries the public key of %s, the signature was made by %s"
+                    % (f[2], kv.get("pub"), kv.get("sig")))
+        return None
     if kind == "cachecancel":
         if il.split()[1:2] != ["b=1"]:
             return ("Relic.Props.C15.cache_getKey_atomic_generated", "every other request is answered with the key (as in isolation)",
